@@ -596,9 +596,9 @@ func main() {
 	f := lib.ParseFlags()
 	res = lib.NewResult("C03", f)
 	thorough = f.Thorough()
-	sweepBudget = f.Scale(120, 8000)
-	dedupSweepBudget = f.Scale(40, 8000)
-	scriptSweepBudget = f.Scale(80, 8000)
+	sweepBudget = f.Scale(120, 2000)
+	dedupSweepBudget = f.Scale(40, 1000)
+	scriptSweepBudget = f.Scale(80, 1500)
 	var err error
 	drv, err = lib.StartDriver(f.Driver)
 	if err != nil {
@@ -637,7 +637,7 @@ func main() {
 		}
 	}
 	rng := lib.NewRNG(f.Seed)
-	n := f.Scale(1500, 60000)
+	n := f.Scale(1500, 15000)
 	for i := 0; i < n; i++ {
 		r := rng.Fork()
 		g := lib.NewGen(r, profile(r))
@@ -648,14 +648,14 @@ func main() {
 			}
 		}
 	}
-	nt := f.Scale(1500, 60000)
+	nt := f.Scale(1500, 15000)
 	for i := 0; i < nt; i++ {
 		checkProgram(deadCodeProgram(rng.Fork()))
 	}
 	// functions with identical live code that differ in dead code only, through RemoveDuplicates / the Script API
-	runDupFamilies(rng.Fork(), f.Scale(150, 12000))
-	skeletons(f.Scale(4, 6))
-	res.Extra = map[string]interface{}{"skeleton_max_len": f.Scale(4, 6),
+	runDupFamilies(rng.Fork(), f.Scale(150, 3000))
+	skeletons(f.Scale(4, 5))
+	res.Extra = map[string]interface{}{"skeleton_max_len": f.Scale(4, 5),
 		"round8_wall_s": map[string]float64{"dedup_all_programs": dedupTime.Seconds(), "dup_families_total": familyTime.Seconds(), "script_api": scriptTime.Seconds()}}
 	res.Write(f.Out)
 }
